@@ -22,7 +22,11 @@ fn c19_wrapped_height_bounded() {
     let width: usize = kani::any();
     kani::assume(width >= 1 && width <= 256);
     let h = line.wrapped_height(width).as_usize();
-    let expect = if cols == 0 { 1 } else { (cols + width - 1) / width };
+    let expect = if cols == 0 {
+        1
+    } else {
+        (cols + width - 1) / width
+    };
     assert!(h == expect, "wrapped_height == max(1, ceil(cols/width))");
     kani::cover!(h > 1, "cover: wraps");
 }
